@@ -31,6 +31,7 @@ type Event struct {
 	Depth    int
 	Fn       *ssa.Function
 	Seq      int
+	Deep     []string // arguments rendered at event time with local storage expanded
 }
 
 func (e Event) String() string {
@@ -53,6 +54,7 @@ type Path struct {
 	Detail    string
 	Decisions []string
 	Cells     []*Cell
+	SymCells  []*Cell
 }
 
 type Walker struct {
@@ -140,6 +142,9 @@ func (w *Walker) Walk(fn *ssa.Function, args []*Term, bindings []*Term) []Path {
 		p.Events = w.events
 		p.Decisions = w.decisions
 		p.Cells = w.cells
+		for _, c := range w.symCells {
+			p.SymCells = append(p.SymCells, c)
+		}
 		paths = append(paths, p)
 		if len(paths) >= w.MaxPaths {
 			w.Exploded = true
@@ -419,6 +424,11 @@ func (w *Walker) store(addr, v *Term, instr ssa.Instruction, fn *ssa.Function, d
 
 func (w *Walker) event(e Event) {
 	e.Seq = len(w.events)
+	if e.Kind == "call" || e.Kind == "go" || e.Kind == "defer" {
+		for _, a := range e.Args {
+			e.Deep = append(e.Deep, termDeep(a))
+		}
+	}
 	w.events = append(w.events, e)
 }
 
@@ -1165,7 +1175,40 @@ func (w *Walker) call(fr *frame, c *ssa.CallCommon, in ssa.Instruction, rt types
 		t.ID = w.fresh("call:" + name)
 	}
 	w.event(Event{Kind: "call", Name: name, Args: args, Result: t, Pos: in.Pos(), Instr: in, Fn: fn, Depth: depth})
+	if !pure {
+		// an opaque callee may write through any pointer to local storage it is handed
+		for _, a := range args {
+			w.havoc(a, name)
+		}
+	}
 	return t
+}
+
+func (w *Walker) havoc(a *Term, by string) {
+	if a == nil {
+		return
+	}
+	switch a.Op {
+	case "iface":
+		w.havoc(a.Args[0], by)
+	case "ptr":
+		if a.Cell != nil && !a.Cell.Sym {
+			id := w.fresh("havoc")
+			var t types.Type = a.Cell.Typ
+			path := a.Path
+			nv := &Term{Op: "fresh", Name: fmt.Sprintf("%s'%d", a.Cell.Name, id), Typ: t}
+			if len(path) == 0 {
+				a.Cell.Val = nv
+			} else {
+				cur := a.Cell.Val
+				for _, s := range path {
+					cur = project(cur, s)
+				}
+				nv.Typ = cur.Typ
+				a.Cell.Val = update(a.Cell.Val, path, nv)
+			}
+		}
+	}
 }
 
 func (w *Walker) builtin(name string, args []*Term, in ssa.Instruction, rt types.Type, fn *ssa.Function, depth int) *Term {
